@@ -22,7 +22,10 @@ DECIDES = ('On the FSM of HyperRAMInterface, states identified by role (write st
            'latency) and to the latency state otherwise, loading the counter with 2*7-2 = 12 (7-2 = 5 in a no-extra-latency '
            'arm), which the declared range holds; the latency state decrements by one per cycle, stays while the counter is '
            'not 0 and leaves to the read state iff the latched R/W# bit of the command says read, else to the write state; '
-           '(e) read and write states end a memory transfer only under final_word, and only into an end state. ')
+           '(e) read and write states end a memory transfer only under final_word, and only into an end state; (f) a register that '
+           'the read state writes from the PHY inputs and consults in a guard holds its reset value on every entry into the read '
+           'state (forward dataflow of its possible values over the FSM), so nothing a previous transaction left behind can fake a '
+           'data strobe before the memory drives one. ')
 NOT_DECIDED = ('the read data path (RWDS-qualified sampling, clock-inversion reassembly), write_ready/read_ready handshakes, '
                'write masking (rwds.o), the PHY (DDR registers, synchronizer delays) and absolute tCSS/tCSH/tRWR timing.')
 
